@@ -1,4 +1,4 @@
-(* Lemmas for C16, part 3: point reads, range reads and counts at the latest revision. *)
+(* Lemmas for C16, part 3: point reads and range reads at any revision up to the current one, counts at the latest. *)
 From Coq Require Import Sorted.
 From KB Require Import Model.Etcd Model.C16Cases Proofs.Coder Proofs.Etcd Proofs.EtcdSim.
 Local Open Scope Z_scope.
@@ -7,11 +7,28 @@ Local Open Scope Z_scope.
 
 Lemma store_eq sb se : R sb se -> map pk (e_cur se) = b_proj (b_kv sb) (b_rev sb).
 Proof.
-  intros HR. apply psorted_ext.
-  - apply psorted_map_pk. apply (R_es _ _ HR).
-  - apply psorted_b_proj. apply (R_bs _ _ HR).
-  - intros k. rewrite p_find_map_pk, (p_find_b_proj k _ _ (R_bs _ _ HR)), (R_kv _ _ HR k).
-    symmetry. eapply b_live_head; [apply (R_wf _ _ HR)|apply N.le_refl].
+  intros HR. apply (store_eq_parts (b_rev sb)); [apply (R_es _ _ HR)|apply (R_bs _ _ HR)|apply (R_wf _ _ HR)|apply (R_kv _ _ HR)|apply N.le_refl].
+Qed.
+
+(* the store a read at revision z sees (0 = the latest), on both sides *)
+Definition view (se : estate) (z : Z) : estore := if z <=? 0 then e_cur se else hist_at (e_hist se) z.
+Definition qof (sb : bstate) (z : Z) : N := if (u64_of_Z z =? 0)%N then b_rev sb else u64_of_Z z.
+
+Lemma view_eq sb se z cur : R sb se -> bounded sb -> 0 <= z <= Z.of_N (b_rev sb) ->
+  (z <= 0 -> cur = e_cur se) ->
+  store_at se cur z = Some (view se z) /\ esorted (view se z)
+  /\ map pk (view se z) = b_proj (b_kv sb) (qof sb z) /\ (qof sb z <= b_rev sb)%N /\ (0 < z -> qof sb z = Z.to_N z).
+Proof.
+  intros HR Hb Hz Hcur. unfold bounded, two63 in Hb. unfold view, qof, store_at. rewrite u64_of_Z_small by lia.
+  destruct (Z.leb_spec z 0) as [H0|H0].
+  - assert (z = 0) by lia. subst z. cbn [Z.to_N N.eqb]. rewrite (Hcur ltac:(lia)).
+    split; [reflexivity|]. split; [apply (R_es _ _ HR)|]. split; [apply store_eq; assumption|]. split; [apply N.le_refl|lia].
+  - replace (Z.to_N z =? 0)%N with false by (symmetry; apply N.eqb_neq; lia).
+    replace (e_now se <? z) with false by (symmetry; apply Z.ltb_ge; rewrite (R_now _ _ HR); lia).
+    split.
+    + destruct (Z.leb_spec (e_rev se) z) as [Hr|Hr]; [|reflexivity]. rewrite (R_hcur _ _ HR z Hr). reflexivity.
+    + split; [apply (R_hs _ _ HR)|]. split; [|split; [lia|reflexivity]].
+      rewrite <- (R_hist _ _ HR (Z.to_N z)) by lia. rewrite Z2N.id by lia. reflexivity.
 Qed.
 
 Definition rngb (a b k : bytes) : bool := bleb a k && bltb k b.
@@ -107,16 +124,48 @@ Proof.
     unfold proj_range; cbn [map]. rewrite (pk_shim_kv sb k _ r Hb ltac:(lia)). unfold pk. rewrite Hyk, Hyv, Hym. reflexivity.
 Qed.
 
-Definition list_req (a b : bytes) (limit : Z) : range_req := mkRange a b limit 0 false false.
+(* point read at a past revision: per key the newest version at or below it on both sides *)
+Lemma sim_get_past sb se k lim z : R sb se -> bounded sb -> k <> [] -> 0 < z <= Z.of_N (b_rev sb) ->
+  proj_range (shim_range sb (mkRange k [] lim z false false)) = proj_range (etcd_range se (mkRange k [] lim z false false)).
+Proof.
+  intros HR Hb Hk Hz.
+  destruct (view_eq sb se z (e_cur se) HR Hb ltac:(lia) (fun _ => eq_refl)) as (Hst & Hvs & Hpk & Hq & Hqz).
+  specialize (Hqz ltac:(lia)). rewrite Hqz in *.
+  assert (Hfind : option_map pk (e_find k (view se z)) = b_live (Z.to_N z) k (b_find k (b_kv sb))).
+  { rewrite <- p_find_map_pk, Hpk. apply p_find_b_proj. apply (R_bs _ _ HR). }
+  unfold etcd_range; cbn [r_key r_rev]. destruct k as [|k0 k']; [contradiction|]. set (k := k0 :: k') in *.
+  rewrite Hst. change (do_range (view se z) (mkRange k [] lim z false false) (e_rev se))
+    with (do_range (view se z) (mkRange k [] lim 0 false false) (e_rev se)).
+  rewrite (do_range_get _ k lim (e_rev se) Hvs).
+  unfold shim_range; cbn [r_end r_key r_rev]. unfold b_get_resp, b_get.
+  rewrite u64_of_Z_small by (unfold bounded, two63 in Hb; lia).
+  replace (Z.to_N z =? 0)%N with false by (symmetry; apply N.eqb_neq; lia).
+  unfold b_live in Hfind. destruct (vers_at (bk_vers (b_find k (b_kv sb))) (Z.to_N z)) as [[r v]|] eqn:Ev.
+  - destruct (beqb v tombstone).
+    + destruct (e_find k (view se z)); [discriminate|]. reflexivity.
+    + destruct (e_find k (view se z)) as [y|]; [|discriminate]. cbn [option_map] in Hfind. injection Hfind as Hy1 Hy2 Hy3.
+      unfold proj_range; cbn [map]. rewrite (pk_shim_kv sb k v r Hb); [unfold pk; rewrite Hy1, Hy2, Hy3; reflexivity|]. apply vers_at_le in Ev. lia.
+  - destruct (e_find k (view se z)); [discriminate|]. reflexivity.
+Qed.
+
+(* point read at any revision up to the current one (0 = latest) *)
+Lemma sim_get_at sb se k lim z : R sb se -> bounded sb -> k <> [] -> 0 <= z <= Z.of_N (b_rev sb) ->
+  proj_range (shim_range sb (mkRange k [] lim z false false)) = proj_range (etcd_range se (mkRange k [] lim z false false)).
+Proof.
+  intros HR Hb Hk Hz. destruct (Z.eq_dec z 0) as [->|Hne]; [apply sim_get; assumption|apply sim_get_past; try assumption; lia].
+Qed.
+
+Definition list_req_at (a b : bytes) (limit z : Z) : range_req := mkRange a b limit z false false.
+Definition list_req (a b : bytes) (limit : Z) : range_req := list_req_at a b limit 0.
 Definition count_req (a b : bytes) : range_req := mkRange a b 0 0 true false.
 
-Lemma etcd_range_list se a b limit : a <> [] ->
-  etcd_range se (list_req a b limit) =
-  ROk (e_rev se) (if 0 <? limit then takeZ (e_range (e_cur se) a b) limit else e_range (e_cur se) a b)
-      (lenZ (e_range (e_cur se) a b)) ((0 <? limit) && (limit <? lenZ (e_range (e_cur se) a b))).
+Lemma etcd_range_list_at se a b limit z st : a <> [] -> store_at se (e_cur se) z = Some st ->
+  etcd_range se (list_req_at a b limit z) =
+  ROk (e_rev se) (if 0 <? limit then takeZ (e_range st a b) limit else e_range st a b)
+      (lenZ (e_range st a b)) ((0 <? limit) && (limit <? lenZ (e_range st a b))).
 Proof.
-  intros Ha. destruct a as [|a0 a']; [contradiction|]. unfold etcd_range, list_req; cbn [r_key r_rev].
-  unfold store_at. cbn [Z.leb Z.compare]. unfold do_range; cbn [r_key r_end r_limit r_count_only r_keys_only negb andb]. reflexivity.
+  intros Ha Hst. destruct a as [|a0 a']; [contradiction|]. unfold etcd_range, list_req_at; cbn [r_key r_rev].
+  rewrite Hst. unfold do_range; cbn [r_key r_end r_limit r_count_only r_keys_only negb andb]. reflexivity.
 Qed.
 
 Lemma etcd_range_count se a b : a <> [] ->
@@ -126,19 +175,19 @@ Proof.
   unfold store_at. cbn [Z.leb Z.compare]. unfold do_range; cbn [r_key r_end r_limit r_count_only r_keys_only negb andb map]. reflexivity.
 Qed.
 
-Lemma shim_range_list sb a b limit : b <> [] -> bltb a b = true ->
-  shim_range sb (list_req a b limit) =
-  let all := b_scan (b_kv sb) a b (b_rev sb) in
+Lemma shim_range_list_at sb a b limit z : b <> [] -> bltb a b = true -> z <> partition_magic ->
+  shim_range sb (list_req_at a b limit z) =
+  let all := b_scan (b_kv sb) a b (qof sb z) in
   let lim := if 0 <? limit then wrap64 (limit + 1) else limit in
   let kvs := if 0 <? lim then takeZ all lim else all in
   if (0 <? lim) && (limit <? lenZ kvs)
   then ROk (i64_of_N (b_rev sb)) (map shim_kv (takeZ kvs limit)) (lenZ (takeZ kvs limit) + 1) true
   else ROk (i64_of_N (b_rev sb)) (map shim_kv kvs) (lenZ kvs + 0) false.
 Proof.
-  intros Hb Hlt. destruct b as [|b0 b']; [contradiction|].
-  unfold shim_range, list_req; cbn [r_end r_key r_rev r_count_only r_limit].
-  change (0 =? partition_magic) with false. cbn iota. change (u64_of_Z 0) with 0%N.
-  unfold b_list. rewrite Hlt. cbn [negb N.eqb]. cbv zeta.
+  intros Hb Hlt Hm. destruct b as [|b0 b']; [contradiction|].
+  unfold shim_range, list_req_at; cbn [r_end r_key r_rev r_count_only r_limit].
+  replace (z =? partition_magic) with false by (symmetry; apply Z.eqb_neq; exact Hm). cbn iota.
+  unfold b_list. rewrite Hlt. cbn [negb]. cbv zeta. fold (qof sb z).
   destruct ((0 <? (if 0 <? limit then wrap64 (limit + 1) else limit)) && _); reflexivity.
 Qed.
 
@@ -156,22 +205,27 @@ Proof.
   destruct (0 <? n); [|destruct Hx]. destruct Hx as [->|Hx]; [left; reflexivity|right; eapply IH; exact Hx].
 Qed.
 
-Lemma sim_list sb se a b limit : R sb se -> bounded sb -> a <> [] -> b <> [] -> b <> [0%N] -> bltb a b = true ->
-  limit + 1 < two63 -> (limit <= 0 \/ lenZ (e_range (e_cur se) a b) <= limit + 1) ->
-  proj_range (shim_range sb (list_req a b limit)) = proj_range (etcd_range se (list_req a b limit)).
+(* range read at any revision up to the current one (0 = latest; 1888 with a range end is the partition request, F7) *)
+Lemma sim_list_at sb se a b limit z : R sb se -> bounded sb -> a <> [] -> b <> [] -> b <> [0%N] -> bltb a b = true ->
+  0 <= z <= Z.of_N (b_rev sb) -> z <> partition_magic ->
+  limit + 1 < two63 -> (limit <= 0 \/ lenZ (e_range (view se z) a b) <= limit + 1) ->
+  proj_range (shim_range sb (list_req_at a b limit z)) = proj_range (etcd_range se (list_req_at a b limit z)).
 Proof.
-  intros HR Hb Ha Hb1 Hb2 Hlt Hlim Hcount.
-  pose proof (range_eq sb se a b HR Hb1 Hb2) as Heq.
-  rewrite (etcd_range_list se a b limit Ha), (shim_range_list sb a b limit Hb1 Hlt). cbv zeta.
-  set (all := b_scan (b_kv sb) a b (b_rev sb)) in *.
-  assert (Hlen : lenZ (e_range (e_cur se) a b) = lenZ all).
+  intros HR Hb Ha Hb1 Hb2 Hlt Hz Hm Hlim Hcount.
+  destruct (view_eq sb se z (e_cur se) HR Hb Hz (fun _ => eq_refl)) as (Hst & Hvs & Hpk & Hq & _).
+  assert (Heq : map pk (e_range (view se z) a b) = map tripleZ (b_scan (b_kv sb) a b (qof sb z))).
+  { rewrite (e_range_proj _ a b Hb1 Hb2), Hpk, b_scan_proj. reflexivity. }
+  rewrite (etcd_range_list_at se a b limit z _ Ha Hst), (shim_range_list_at sb a b limit z Hb1 Hlt Hm). cbv zeta.
+  set (all := b_scan (b_kv sb) a b (qof sb z)) in *.
+  assert (Hlen : lenZ (e_range (view se z) a b) = lenZ all).
   { rewrite <- (lenZ_map pk), Heq, lenZ_map. reflexivity. }
   rewrite Hlen in Hcount.
   pose proof (limit_logic all limit Hlim Hcount) as HL. cbv zeta in HL.
   set (lim := if 0 <? limit then wrap64 (limit + 1) else limit) in *.
   set (kvs := if 0 <? lim then takeZ all lim else all) in *.
-  assert (Hrevs : forall x, In x all -> (snd x <= b_rev sb)%N) by (intros x Hx; eapply b_scan_revs; exact Hx).
-  assert (Hetcd : map pk (if 0 <? limit then takeZ (e_range (e_cur se) a b) limit else e_range (e_cur se) a b)
+  assert (Hrevs : forall x, In x all -> (snd x <= b_rev sb)%N).
+  { intros x Hx. apply b_scan_revs in Hx. lia. }
+  assert (Hetcd : map pk (if 0 <? limit then takeZ (e_range (view se z) a b) limit else e_range (view se z) a b)
                   = map tripleZ (if 0 <? limit then takeZ all limit else all)).
   { destruct (0 <? limit); [rewrite <- takeZ_map, Heq, takeZ_map; reflexivity|exact Heq]. }
   unfold proj_range at 2. rewrite Hetcd, Hlen.
@@ -182,6 +236,74 @@ Proof.
   - rewrite (pk_shim_kvs sb); [|assumption|].
     + rewrite <- H3, <- H2, H1. reflexivity.
     + intros x Hx. apply Hrevs. rewrite H1 in Hx. destruct (0 <? limit); [eapply In_takeZ; exact Hx|exact Hx].
+Qed.
+
+(* without the bound on the number of keys (F3 concerns Count only): the kvs — keys, values, mod revisions, order — and
+   More agree for every list, at any revision *)
+Lemma takeZ_takeZ {A} (l : list A) n m : n <= m -> takeZ (takeZ l m) n = takeZ l n.
+Proof.
+  revert n m. induction l as [|x l IH]; intros n m H; cbn [takeZ]; [reflexivity|].
+  destruct (Z.ltb_spec 0 m); cbn [takeZ]; destruct (Z.ltb_spec 0 n); try reflexivity; try lia.
+  f_equal. apply IH. lia.
+Qed.
+
+Lemma limit_logic_kvs {A} (all : list A) (limit : Z) :
+  limit + 1 < two63 ->
+  let lim := if 0 <? limit then wrap64 (limit + 1) else limit in
+  let kvs := if 0 <? lim then takeZ all lim else all in
+  (if (0 <? lim) && (limit <? lenZ kvs) then (takeZ kvs limit, true) else (kvs, false))
+  = ((if 0 <? limit then takeZ all limit else all), (0 <? limit) && (limit <? lenZ all)).
+Proof.
+  intros Hb. pose proof (lenZ_nonneg all) as Hn. destruct (Z.ltb_spec 0 limit) as [Hp|Hp]; cbv zeta.
+  - rewrite wrap64_small by (unfold two63 in *; lia).
+    assert (H1 : (0 <? limit + 1) = true) by (apply Z.ltb_lt; lia). rewrite H1. cbn [andb].
+    rewrite lenZ_takeZ by lia.
+    destruct (Z.ltb_spec limit (lenZ all)) as [Hl|Hl].
+    + replace (limit <? Z.min (limit + 1) (lenZ all)) with true by (symmetry; apply Z.ltb_lt; lia).
+      rewrite takeZ_takeZ by lia. reflexivity.
+    + replace (limit <? Z.min (limit + 1) (lenZ all)) with false by (symmetry; apply Z.ltb_ge; lia).
+      rewrite (takeZ_all all (limit + 1)) by lia. rewrite (takeZ_all all limit Hl). reflexivity.
+  - assert (H1 : (0 <? limit) = false) by (apply Z.ltb_ge; lia). rewrite H1. reflexivity.
+Qed.
+
+Definition kvs_more (p : option (list pkv * Z * bool)) : option (list pkv * bool) :=
+  match p with Some (kvs, _, m) => Some (kvs, m) | None => None end.
+
+Lemma sim_list_kvs_more sb se a b limit z : R sb se -> bounded sb -> a <> [] -> b <> [] -> b <> [0%N] -> bltb a b = true ->
+  0 <= z <= Z.of_N (b_rev sb) -> z <> partition_magic -> limit + 1 < two63 ->
+  kvs_more (proj_range (shim_range sb (list_req_at a b limit z))) = kvs_more (proj_range (etcd_range se (list_req_at a b limit z))).
+Proof.
+  intros HR Hb Ha Hb1 Hb2 Hlt Hz Hm Hlim.
+  destruct (view_eq sb se z (e_cur se) HR Hb Hz (fun _ => eq_refl)) as (Hst & Hvs & Hpk & Hq & _).
+  assert (Heq : map pk (e_range (view se z) a b) = map tripleZ (b_scan (b_kv sb) a b (qof sb z))).
+  { rewrite (e_range_proj _ a b Hb1 Hb2), Hpk, b_scan_proj. reflexivity. }
+  rewrite (etcd_range_list_at se a b limit z _ Ha Hst), (shim_range_list_at sb a b limit z Hb1 Hlt Hm). cbv zeta.
+  set (all := b_scan (b_kv sb) a b (qof sb z)) in *.
+  assert (Hlen : lenZ (e_range (view se z) a b) = lenZ all).
+  { rewrite <- (lenZ_map pk), Heq, lenZ_map. reflexivity. }
+  pose proof (limit_logic_kvs all limit Hlim) as HL. cbv zeta in HL.
+  set (lim := if 0 <? limit then wrap64 (limit + 1) else limit) in *.
+  set (kvs := if 0 <? lim then takeZ all lim else all) in *.
+  assert (Hrevs : forall x, In x all -> (snd x <= b_rev sb)%N).
+  { intros x Hx. apply b_scan_revs in Hx. lia. }
+  assert (Hetcd : map pk (if 0 <? limit then takeZ (e_range (view se z) a b) limit else e_range (view se z) a b)
+                  = map tripleZ (if 0 <? limit then takeZ all limit else all)).
+  { destruct (0 <? limit); [rewrite <- takeZ_map, Heq, takeZ_map; reflexivity|exact Heq]. }
+  unfold proj_range at 2. unfold kvs_more at 2. rewrite Hetcd, Hlen.
+  destruct ((0 <? lim) && (limit <? lenZ kvs)) eqn:Ec; injection HL as H1 H2; unfold proj_range, kvs_more.
+  - rewrite (pk_shim_kvs sb); [|assumption|].
+    + rewrite <- H2, H1. reflexivity.
+    + intros x Hx. apply Hrevs. rewrite H1 in Hx. destruct (0 <? limit); [eapply In_takeZ; exact Hx|exact Hx].
+  - rewrite (pk_shim_kvs sb); [|assumption|].
+    + rewrite <- H2, H1. reflexivity.
+    + intros x Hx. apply Hrevs. rewrite H1 in Hx. destruct (0 <? limit); [eapply In_takeZ; exact Hx|exact Hx].
+Qed.
+
+Lemma sim_list sb se a b limit : R sb se -> bounded sb -> a <> [] -> b <> [] -> b <> [0%N] -> bltb a b = true ->
+  limit + 1 < two63 -> (limit <= 0 \/ lenZ (e_range (e_cur se) a b) <= limit + 1) ->
+  proj_range (shim_range sb (list_req a b limit)) = proj_range (etcd_range se (list_req a b limit)).
+Proof.
+  intros HR Hb Ha Hb1 Hb2 Hlt Hlim Hcount. apply sim_list_at; try assumption; [lia|discriminate].
 Qed.
 
 Lemma sim_count sb se a b : R sb se -> bounded sb -> a <> [] -> b <> [] -> b <> [0%N] ->
